@@ -161,6 +161,7 @@ struct TapEvent
 	std::uint32_t byte_counter = 0;
 	bool during_forward = false; // drop callback ran while this pre-tap's forward call was the innermost on the stack
 	bool outermost = true;       // first wrapper of a nested chain (= the most recent pre-tap the packet passed)
+	bool nowrap = false;         // arrival of a packet that has no drop callback and was given none by the tap (World::wrap_only_if_present)
 	bool intact = true;          // drop callback received the same fingerprint
 	std::uint64_t fp() const
 	{
@@ -226,6 +227,9 @@ struct World : sim::configuration
 	int drop_chain_depth = 0;     // > 0 while a chain of nested drop wrappers is being invoked
 	long long max_events = 4000000;
 	bool overflow = false;
+	// pre-queue taps normally give every packet a drop-callback wrapper so that every drop is observable. With this flag a
+	// packet that has no drop callback of its own reaches the queue without one (a queue must drop it silently)
+	bool wrap_only_if_present = false;
 
 	sim::simulation* simp = nullptr;
 	std::unique_ptr<sim::simulation> sim_holder;
@@ -399,7 +403,9 @@ struct World : sim::configuration
 inline void Tap::incoming_packet(sim::aux::packet p)
 {
 	w->record(id, 0, p);
-	if (wrap_drop)
+	bool const wrap_this = wrap_drop && (!w->wrap_only_if_present || bool(p.drop_fun));
+	if (wrap_drop && !wrap_this && !w->events.empty()) w->events.back().nowrap = true;
+	if (wrap_this)
 	{
 		auto orig = std::move(p.drop_fun);
 		Tap* self = this;
